@@ -138,7 +138,7 @@ def generate(family, rng, tier):
                 # memories with synchronous read ports: their port registers are named <memory>_adr<n> / <memory>_dat<n> by the
                 # backend and must not collide with signals that happen to carry exactly those names
                 for mi in range(rng.randint(1, 2)):
-                    nm = rng.choice(["data", "x", "q", "mem"])
+                    nm = rng.choice(["data", "x", "q", "mem", "table", "reg", "buf", "wire"])
                     mems.append({"name": nm, "mode": rng.choice(["wf", "rf"]), "width": rng.choice([4, 8])})
                     for suffix in ("_adr0", "_dat0", "_adr1", "_dat1", ""):
                         if rng.random() < 0.4 and sigs:
@@ -148,7 +148,13 @@ def generate(family, rng, tier):
                             else:
                                 t["bt"] = [[nm + suffix, 0]]
                                 t["override"] = None
-            designs.append({"signals": sigs, "duid_offset": 0, "mems": mems})
+            insts = []
+            if rng.random() < 0.4:
+                # instances: named after their module type unless given a name; the identifier must be legal, not reserved
+                # and different from every signal / memory identifier (and from other instances of the same type)
+                for ii in range(rng.randint(1, 3)):
+                    insts.append({"of": rng.choice(["CELL", "CELL", "buf", "and", "FD"]), "name": rng.choice([None, None, "u0", "table", "x", "data", "q_1"])})
+            designs.append({"signals": sigs, "duid_offset": 0, "mems": mems, "insts": insts})
             if not any(s["io"] for s in sigs):
                 sigs[0]["io"] = True
         # the same program in every interpreter (same DUIDs): only the interpreter's hash seed differs
@@ -253,15 +259,26 @@ for d in batch["designs"]:
             if s["io"]:
                 ios.add(sig)
         prev = sig
+    mems_built = []
     for mi, ms in enumerate(d.get("mems", [])):
         from migen import Memory
         from migen.fhdl.specials import WRITE_FIRST, READ_FIRST
         mem = Memory(ms["width"], 4, name=ms["name"])
         port = mem.get_port(write_capable=True, mode=WRITE_FIRST if ms["mode"] == "wf" else READ_FIRST)
         m.specials += mem, port
+        mems_built.append(mem)
         o = Signal(ms["width"])
         o.backtrace = [("mo%%d" %% mi, 0)]
         m.comb += [port.adr.eq(objs[0][:2]), port.dat_w.eq(objs[0]), port.we.eq(objs[0][0]), o.eq(port.dat_r)]
+        ios.add(o)
+    specials = []
+    for ii, ins in enumerate(d.get("insts", [])):
+        from migen import Instance
+        o = Signal()
+        o.backtrace = [("io%%d" %% ii, 0)]
+        inst = Instance(ins["of"], i_a=objs[0], o_b=o, **({"name": ins["name"]} if ins["name"] else {}))
+        m.specials += inst
+        specials.append(inst)
         ios.add(o)
     for k in range(d.get("slices", 0)):
         a, b = objs[k %% len(objs)], objs[(k + 1) %% len(objs)]
@@ -273,11 +290,12 @@ for d in batch["designs"]:
         r = verilog.convert(m, ios=ios, name="top")
         text = r.main_source
         names = [r.ns.get_name(sig) for sig in objs]
+        snames = [r.ns.get_name(x) for x in mems_built + specials]
         err = None
     except Exception as e:
-        text, names, err = "", [], "%%s: %%s" %% (type(e).__name__, e)
+        text, names, snames, err = "", [], [], "%%s: %%s" %% (type(e).__name__, e)
     text = "\n".join(l for l in text.splitlines() if "auto-generated" not in l.lower() and "date" not in l.lower())
-    out.append({"text": text, "names": names, "err": err})
+    out.append({"text": text, "names": names, "snames": snames, "err": err})
 json.dump(out, sys.stdout)
 '''
 
@@ -303,7 +321,16 @@ def run_convert(scn):
         if a["err"]:
             V("convert_failed", "design #%d" % di, "convert() raised %s" % a["err"])
             continue
-        checks += check_names(list(enumerate(a["names"])), V, "design #%d ns" % di)
+        # signals, then memories, then instances: one identifier space
+        checks += check_names(list(enumerate(a["names"] + a.get("snames", []))), V, "design #%d ns" % di)
+        nm_, ni_ = len(d.get("mems", [])), len(d.get("insts", []))
+        for k, ins in enumerate(d.get("insts", [])):
+            # the identifier the text really uses for the instance: "<of> <identifier>(" on one line
+            got = re.findall(r"^%s ([^\s(]+)\($" % re.escape(ins["of"]), a["text"], re.M)
+            checks += 1
+            for g in got:
+                if g in KW or not IDENT.match(g):
+                    V("reserved_identifier", "design #%d text" % di, "instance of %s is emitted under the identifier %r" % (ins["of"], g))
         decl = re.findall(r"^\s*(?:input|output|inout)?\s*(?:wire|reg)\s+(?:signed\s+)?(?:\[[^\]]+\]\s+)?([A-Za-z_][A-Za-z0-9_$]*)", a["text"], re.M)
         checks += len(decl)
         dup = sorted({x for x in decl if decl.count(x) > 1})
